@@ -11,6 +11,7 @@ Line protocol for the whole-stack model (component `stack` of the driver; statef
       injs = - | <inject>,<inject>,…      (one per `send_probe` call; inject as for `chan send`, `-` = none)
       -> calls=<ops|ops|…> sent=[…] recv=<as `chan recv`> polled=[…] tcp=<list> pub=<round|none> st=<state> fin=<0|1>
        | err <kind> | panic | dead
+  stack itq <as it>    -> calls=… pub=… | finished | err <kind> | panic | dead    (closed-loop run)
   stack dump
       -> <`agg dump`> error=<kind|->
 -/
@@ -57,6 +58,21 @@ def handle (d : DSt) (args : List String) : DSt × String :=
           let pub := match o.published with | none => "none" | some r => showRound r
           ({ cur := some (c, st'), last := some st' },
            s!"calls={showCalls o.calls} sent=[{showSent o.sent}] recv={Wire.showRecv (.ok o.recv)} polled=[{Chan.showPolled o.polled}] tcp={Chan.showTcp st'.chan.tcp} pub={pub} st={showState c st'.ts}")
+        | .err e => ({ cur := none, last := some { st with error := some e } }, "err " ++ Chan.showErr e)
+        | .panic => ({ cur := none, last := none }, "panic")
+    | _, _, _, _, _ => (d, "bad-op")
+  | ["itq", injs, dt, rd, dg, envs] =>
+    -- the closed-loop run: only what can be observed from outside (socket calls, published round)
+    match parseInjs injs, dt.toNat?, Chan.parsePoll rd, Chan.parseDgram dg, Chan.parseEnvList envs with
+    | some injs, some dt, some rd, some dg, some envs =>
+      match d.cur with
+      | none => (d, "dead")
+      | some (c, st) =>
+        if finished st.ts c.maxRounds then (d, "finished") else
+        match iter c st { injs := injs, dt := dt, recv := { readable := rd, dgram := dg, tcp := envs } } with
+        | .ok (st', o) =>
+          let pub := match o.published with | none => "none" | some r => showRound r
+          ({ cur := some (c, st'), last := some st' }, s!"calls={showCalls o.calls} pub={pub}")
         | .err e => ({ cur := none, last := some { st with error := some e } }, "err " ++ Chan.showErr e)
         | .panic => ({ cur := none, last := none }, "panic")
     | _, _, _, _, _ => (d, "bad-op")
